@@ -522,7 +522,11 @@ impl YGen<'_> {
                 can_merge = false;
                 continue;
             }
-            let key = format!("k{}{}", depth, e);
+            let key = match self.rng.below(12) {
+                0 => format!("\"q k{}{}\"", depth, e),
+                1 => format!("'s{}{}'", depth, e),
+                _ => format!("k{}{}", depth, e),
+            };
             let explicit = self.explicit_keys && self.rng.chance(1, 5);
             if explicit {
                 self.out.extend_from_slice(format!("? {key}\n").as_bytes());
@@ -556,6 +560,24 @@ impl YGen<'_> {
             } else if !self.anchors_scalar.is_empty() && self.rng.chance(1, 6) {
                 let a = self.rng.pick(&self.anchors_scalar).clone();
                 self.out.extend_from_slice(format!(" *{a}\n").as_bytes());
+            } else if self.rng.chance(1, 10) {
+                // block scalar (literal or folded, with optional chomping indicator)
+                let ind_s = *self.rng.pick(&["|", ">", "|-", ">-", "|+"]);
+                self.out.extend_from_slice(format!(" {ind_s}\n").as_bytes());
+                let lines = self.rng.urange(1, 3);
+                for l in 0..lines {
+                    self.indent(ind + 2);
+                    self.out.extend_from_slice(format!("text line {l}\n").as_bytes());
+                }
+            } else if self.rng.chance(1, 12) {
+                // multi-line plain scalar
+                self.out.extend_from_slice(b" first words\n");
+                self.indent(ind + 2);
+                self.out.extend_from_slice(b"continued here\n");
+            } else if self.rng.chance(1, 12) {
+                // explicit tag
+                let t = *self.rng.pick(&["!!str 123", "!!int \"7\"", "!custom v", "!!null ''", "!!seq [a]", "!!map {a: 1}"]);
+                self.out.extend_from_slice(format!(" {t}\n").as_bytes());
             } else {
                 let s = self.scalar();
                 if self.rng.chance(1, 8) && !s.is_empty() && !s.starts_with('[') && !s.starts_with('{') {
